@@ -17,7 +17,7 @@ def run(chk):
     cl.model_check(chk, 4 if thorough else 3, big=False)
     if thorough:
         cl.model_check(chk, 3, big=True)
-    sc = cl.model_scenarios(chk, 2) + cl.model_scenarios(chk, 3, keep_every=1 if thorough else 12, offset=chk.seed)
+    sc = cl.model_scenarios(chk, 2) + cl.model_scenarios(chk, 3, keep_every=1 if thorough else 24, offset=chk.seed)
     walks = cl.random_walks(chk.seed, 2000 if thorough else 100, 40)
     out = cl.run_scenarios(binary, sc + walks, wd, "c07")
     outs, ifl, pfl = cl.validate(chk, out, wd, "c07", shard=1500 if thorough else 400)
@@ -31,7 +31,7 @@ def run(chk):
                        "simulated terminal; impl -> spec: seeded random walks of up to 40 calls over up to 8 tokens, max 0..3, random outcomes. Every "
                        "trace is validated by TLC: each request decoded with the reference codec and compared with the I-spec's, each result "
                        "compared, and P_C07 evaluated from observed results and receipts only. distinct_nontrivial = replayed model histories" % (
-                           "every" if thorough else "every 12th"))
+                           "every" if thorough else "every 24th"))
     if sc:
         s = sc[len(sc) // 2]
         chk.sample({"max": s["config"]["max"], "dangling": s["term"]["dangling"], "calls": s["calls"], "terminal_outcomes": s["plan"]["exchanges"],
